@@ -981,7 +981,7 @@ func c05LongJournal(t *sim.T) *sim.Violation {
 		spec.Kind = 0
 	}
 	w := gen.NewWorld(t, cfg)
-	src := &sliceSource{recycle: t.Chance(1, 4)}
+	src := &sliceSource{}
 	o := spec.Fresh()
 	for i := 0; i < n; i++ {
 		r, err, pv, stack := parseRT(gen.MarshalFeed(w.Tick()), o)
